@@ -292,7 +292,9 @@ class StrMachine:
             e = build(e_t)
             n = step["n"]
             V = {ev(e_t, env) for env in M}
-            const = not variables(e_t)
+            # (an expression claripy folds to a constant while building it -- s == s -- is answered without the solver, also on an
+            # unsatisfiable set: the latitude of DESIGN 3.2 for semantically constant queries)
+            const = not variables(e_t) or not getattr(e, "symbolic", True)
             st_, r = self._call(i, step, lambda: s.eval(e, n, extra_constraints=extras), allow_unsat=not nonempty)
             if st_ != "ok":
                 return
@@ -317,7 +319,7 @@ class StrMachine:
                 self.fail("batch-non-primitive", i, step, {"answer": repr(r)[:200]})
                 return
             if not nonempty:
-                if got and any(variables(t) for t in es_t):
+                if got and any(variables(t) and getattr(x_, "symbolic", True) for t, x_ in zip(es_t, es, strict=True)):
                     self.fail("batch-values-on-unsat", i, step, {"answer": got[:5]})
                 return
             if len(set(got)) != len(got):
@@ -341,7 +343,7 @@ class StrMachine:
                 return
             self.res.stats["answers_checked"] += 1
             if not nonempty:
-                if variables(e_t):
+                if variables(e_t) and getattr(e, "symbolic", True):
                     self.fail("extremum-on-unsat", i, step, {"answer": r})
                 return
             key = (lambda v: v - (1 << 64) if v >> 63 else v) if signed else (lambda v: v)
@@ -363,7 +365,7 @@ class StrMachine:
                 return
             self.res.stats["answers_checked"] += 1
             if not nonempty:
-                if r and variables(e_t):
+                if r and variables(e_t) and getattr(e, "symbolic", True):
                     self.fail("solution-true-on-unsat", i, step, {"answer": r})
                 return
             if bool(r) != feas:
